@@ -32,8 +32,9 @@ META = {
             "builtin meshes, procedural textures (every type x builtin x mark, random-dot marks frequent and repeated) + materials, a height field, delayed actuators, a muscle rig whose length "
             "ranges are computed through the pool (second use of the pool; mixed motor/muscle actuator lists), optionally "
             "length ranges for all actuators: mj_saveModel bytes of  compile twice / compile of an mj_copySpec copy and of a "
-            "copy of the copy / mj_copyModel / load(save) / usethread 0 and 1 (repeated, real threads) / mj_recompile of the "
-            "unchanged spec  must all be identical, and so must the first compile in a fresh process, after three other "
+            "copy of the copy / a copy made before the first compile / mj_copyModel / load(save) / usethread 0 and 1 (repeated, real threads) / mj_recompile of the "
+            "unchanged spec  must all be identical, every mj_copySpec copy must have as many elements of every kind as its source "
+            "(counted on the spec, before compiling), and so must the first compile in a fresh process, after three other "
             "specs were compiled in the process, and inside the batch run (no hidden state carried between compiles); mj_recompile must keep time, qpos, qvel, act, ctrl, mocap_pos, mocap_quat -- every component preset to pairwise "
             "distinct non-default values on models with several mocap bodies / actuators / multi-dof joints (class "
             "saved-state-lost, always alarms) and also after an edit that appends a body. KNOWN FINDING C33-F1: the other "
@@ -233,12 +234,15 @@ def compile_cases(ctx):
     cases.append({"seed": 365416, "feat": 280819, "nbody": 7, "nmesh": 0, "ntex": 0, "flags": 9, "reps": 1})
     cases.append({"seed": 343637, "feat": 498587, "nbody": 4, "nmesh": 0, "ntex": 2, "flags": 42, "reps": 2})
     cases.append({"seed": 11, "feat": FEAT_ALL, "nbody": 5, "nmesh": 0, "ntex": 1, "flags": 64 | 16, "reps": 1})   # several mocap bodies, delayed actuators
+    cases.append({"seed": 3, "feat": 9, "nbody": 3, "nmesh": 0, "ntex": 0, "flags": 192, "reps": 1})   # extras rig + mocap bodies, tiny tree
     for i in range(10 if q else 50):
         feat = 0
         for b in (1, 2, 4, 8, 16, 32, 64, 128, 256, 512, 1024, 2048, 4096, 8192, 16384, 32768, 65536, 131072, 262144):
             if rng.random() < 0.6:
                 feat |= b
         flags = rng.choice((0, 2, 4, 6, 16, 18, 20, 22, 8, 10))
+        if i % 4 != 3:
+            flags |= 128   # extras rig: spatial tendons (site / sphere / cylinder / pulley wraps) + pair, exclude, numeric, text, tuple, camera, light
         if i % 3 != 1:
             flags |= 64    # 2..4 extra mocap bodies: stride-3 and stride-4 index spaces differ from the second body on
             feat |= 128    # activations
@@ -452,12 +456,18 @@ def run(ctx):
                 ncmp += 1
                 if t[2] != "1":
                     what = t[1]
-                    site = {"twice": "mj_compile", "copyspec": "mj_copySpec", "copyspec2": "mj_copySpec", "copymodel": "mj_copyModel",
+                    site = {"twice": "mj_compile", "copyspec": "mj_copySpec", "copyspec2": "mj_copySpec", "copyfresh": "mj_copySpec", "copymodel": "mj_copyModel",
                             "saveload": "mj_saveModel/mj_loadModelBuffer", "usethread0": "usethread", "usethread1": "usethread",
                             "recompile": "mj_recompile"}.get(what, what)
                     ctx.violation("impl_violation", c, expected="mj_saveModel bytes identical to the first compilation of the spec",
                                   observed=l, theorem="C33_schedule_independent / C33_copyModel" if what != "twice" else "C33 (determinism)",
                                   signature={"site": site, "what": "accept-reject-differs" if "compile-failed" in l else "model-bytes-differ"})
+            elif t[0] == "CNT":
+                ncmp += 1
+                if t[2] != "1":
+                    ctx.violation("impl_violation", c, expected="an mj_copySpec copy has as many elements of every kind as its source",
+                                  observed=l, theorem="C33_copy_list_complete (elements whose references resolve are all copied)",
+                                  signature={"site": "mj_copySpec", "what": "copy-drops-elements"})
             elif t[0] == "STATE":
                 nstate += 1
                 if t[2] != "1":
